@@ -622,6 +622,10 @@ func (d *PathDecoder) collectInferredReferenceTargetsForBody(addr lang.Address, 
 		}
 
 		for i, b := range bCollection.Blocks {
+			if len(b.Labels) == 0 {
+				// map block without its key label
+				continue
+			}
 			elemAddr := append(blockAddr.Copy(), lang.IndexStep{
 				Key: cty.StringVal(b.Labels[0]),
 			})
